@@ -22,6 +22,7 @@ import (
 
 	"github.com/nuetzliches/hookaido/internal/app"
 	"github.com/nuetzliches/hookaido/internal/config"
+	"github.com/nuetzliches/hookaido/internal/ingress"
 	"github.com/nuetzliches/hookaido/internal/queue"
 )
 
@@ -248,9 +249,29 @@ func cmdAuth(args []string) error {
 		}
 		var history []sent
 		nonceN := 0
+		// scripted follow-ups (multi-step histories a random walk hardly ever composes): each is sent as the next hmac request,
+		// optionally after moving the clock to an absolute instant
+		type step struct {
+			setNow int64
+			s      sent
+		}
+		var pending []step
 		for q := 0; q < *nreq; q++ {
+			var forced *sent
+			if len(pending) > 0 {
+				st := pending[0]
+				pending = pending[1:]
+				if st.setNow > clock.now {
+					clock.now = st.setNow
+				}
+				forced = &st.s
+			}
 			// clock: small steps, sometimes to a boundary of an earlier request's window
-			switch r.weighted([]int{30, 25, 15, 10, 20}) {
+			move := r.weighted([]int{30, 25, 15, 10, 20})
+			if forced != nil {
+				move = 0
+			}
+			switch move {
 			case 0:
 			case 1:
 				clock.now += int64(1+r.intn(900)) * int64(time.Millisecond)
@@ -263,14 +284,18 @@ func cmdAuth(args []string) error {
 					h := pick(r, history)
 					var tsv int64
 					fmt.Sscan(strings.TrimSpace(strings.TrimPrefix(h.ts, "+")), &tsv)
-					b := tsv*sec + sc.hm.Tol + pick(r, []int64{-1, 0, 0, 1, -int64(time.Millisecond)})
+					ms := int64(time.Millisecond)
+					b := tsv*sec + sc.hm.Tol + pick(r, []int64{-1, 0, 0, 1, -ms, ms, 500 * ms, 999 * ms, 1000 * ms, 1001 * ms})
 					if b > clock.now {
 						clock.now = b
+						if r.chance(60) {
+							forced = &h // the request whose window edge this is, verbatim
+						}
 					}
 				}
 			}
 			// occasionally reload the configuration: the same file, or the same file with another HMAC tolerance
-			if r.chance(7) {
+			if forced == nil && r.chance(7) {
 				newTol := sc.hm.Tol
 				if r.chance(45) {
 					tolS := pick(r, []int{2, 5, 10, 30, 300, 420, 720})
@@ -289,6 +314,10 @@ func cmdAuth(args []string) error {
 				emit(map[string]interface{}{"k": "areload", "now": clock.now, "ok": ok, "tol": sc.hm.Tol})
 			}
 			kind := r.weighted([]int{55, 15, 20, 10}) // hmac, basic, forward, open
+			if forced != nil {
+				kind = 0
+			}
+			plain, reloadInFlight := false, false
 			body := []byte(pick(r, []string{"{}", "", "{\"a\":1}", "\x00\xff\x10", strings.Repeat("x", 100)}))
 			method := "POST"
 			var req *http.Request
@@ -299,8 +328,12 @@ func cmdAuth(args []string) error {
 				req = httptest.NewRequest(method, "http://ex"+rawPath, bytes.NewReader(body))
 				cleaned := path.Clean(req.URL.Path)
 				var s sent
-				if len(history) > 0 && r.chance(30) {
-					s = pick(r, history) // replay of an earlier request, verbatim
+				if forced != nil || (len(history) > 0 && r.chance(30)) {
+					if forced != nil {
+						s = *forced
+					} else {
+						s = pick(r, history) // replay of an earlier request, verbatim
+					}
 					req = httptest.NewRequest(s.method, "http://ex"+s.p, bytes.NewReader(s.body))
 					cleaned = path.Clean(req.URL.Path)
 					body, method = s.body, s.method
@@ -330,7 +363,10 @@ func cmdAuth(args []string) error {
 					}
 					s.sig = signIngress(key, ts, signMethod, cleaned, body)
 					// mutations of an otherwise valid request
-					switch r.weighted([]int{62, 4, 4, 4, 5, 4, 3, 3, 3, 3, 3, 2}) {
+					mut := r.weighted([]int{62, 4, 4, 4, 5, 4, 3, 3, 3, 3, 3, 2})
+					plain = mut == 0 && signMethod == method && string(key) != "wrong-key" && s.nonce == fmt.Sprintf("n%d-%d", c, nonceN)
+					reloadInFlight = plain && r.chance(8)
+					switch mut {
 					case 1:
 						s.sig = flipBitHex(s.sig, r)
 					case 2:
@@ -415,11 +451,55 @@ func cmdAuth(args []string) error {
 			}
 			before := len(store.VerifSnapshot())
 			rr := httptest.NewRecorder()
-			rt.IngressServer(store).ServeHTTP(rr, req)
+			srv := rt.IngressServer(store)
+			reloaded, reloadOK := false, false
+			if reloadInFlight {
+				// a complete reload of the same file between the request fetching its authenticator and verifying with it
+				f := srv.HMACAuthFor
+				srv.HMACAuthFor = func(route string) *ingress.HMACAuth {
+					v := f(route)
+					if !reloaded {
+						reloaded = true
+						reloadOK = rt.Reload(cfgPath)
+					}
+					return v
+				}
+			}
+			srv.ServeHTTP(rr, req)
 			after := len(store.VerifSnapshot())
 			rec["status"] = rr.Code
 			rec["enqueued"] = after - before
+			if reloaded {
+				rec["reloadInFlight"] = true
+			}
 			emit(rec)
+			if reloaded {
+				emit(map[string]interface{}{"k": "areload", "now": clock.now, "ok": reloadOK, "tol": sc.hm.Tol, "inFlight": true})
+			}
+			if kind == 0 && plain && forced == nil && len(history) > 0 {
+				h := history[len(history)-1]
+				switch {
+				case reloaded:
+					pending = append(pending, step{0, h}) // the request that straddled the reload, replayed
+				case rr.Code == 202 && r.chance(20):
+					// the nonce of an accepted request re-used by a request that is refused anyway (bad signature, or a fresh
+					// signature) and carries an older, still tolerated timestamp; then the accepted request is replayed after the
+					// refused one's window has closed and before its own has
+					var T int64
+					fmt.Sscan(h.ts, &T)
+					tolS := sc.hm.Tol / sec
+					tp := clock.now/sec - tolS + 1
+					if T-tp >= 2 {
+						poison := sent{ts: fmt.Sprint(tp), nonce: h.nonce, method: h.method, p: h.p, body: h.body}
+						key := []byte("wrong-key")
+						if r.chance(40) && len(sc.hm.directRaw) > 0 {
+							key = []byte(sc.hm.directRaw[0])
+						}
+						poison.sig = signIngress(key, poison.ts, h.method, path.Clean(h.p), h.body)
+						pending = append(pending, step{0, poison}, step{(tp+tolS)*sec + pick(r, []int64{1, sec / 2, sec}), h})
+					}
+				}
+			}
 		}
 	}
 	return nil
